@@ -544,7 +544,8 @@ def descriptor_tie(run, variants, names, texts, classify, skel_inc, lib, model):
             if diffs:
                 fid = classify(n, var, diffs)
                 if fid:
-                    run.known_finding(fid, line)
+                    for f1 in ([fid] if isinstance(fid, str) else fid):
+                        run.known_finding(f1, line)
                     continue
                 run.violation("oracle:descriptor-differs", {"what": "the type descriptors generated under %s differ from the baseline's in a field no representation option may change" % var.label(),
                                                             "module": texts[n], "command_line": line, "differences": diffs[:12],
@@ -926,14 +927,20 @@ def main(tier):
         return isinstance(a, list) and isinstance(b, list) and len(b) >= 1 and a == [b[0]] + b
 
     def dclassify(n, var, diffs):
-        if "-fno-constraints" in var.opts and c13_descr.only_char_map_differs(diffs):
-            return "C13-no-constraints-per-alphabet"
-        # C13-explicit-tag-unsigned-member seen in the tables: the native build emits the EXPLICIT tag of an `unsigned` member twice
-        # (once in the member-specific descriptor, once in the member entry); INTEGER_t needs no such descriptor under -fwide-types
-        if "-fwide-types" in var.opts and explicit_tagged_unsigned_member(all_texts.get(n, "")) \
-           and diffs and all(d["field"] in ("tags", "all") and doubled_first_tag(d) for d in diffs):
-            return "C13-explicit-tag-unsigned-member"
-        return None
+        """every difference must belong to a known finding whose option is in the build's option set; -> list of finding ids"""
+        ids = []
+        for d in diffs:
+            if "-fno-constraints" in var.opts and c13_descr.only_char_map_differs([d]):
+                fid = "C13-no-constraints-per-alphabet"
+            elif "-fwide-types" in var.opts and explicit_tagged_unsigned_member(all_texts.get(n, "")) and d["field"] in ("tags", "all") and doubled_first_tag(d):
+                # C13-explicit-tag-unsigned-member seen in the tables: the native build emits the EXPLICIT tag of an `unsigned` member twice (once in
+                # the member-specific descriptor, once in the member entry); INTEGER_t needs no such descriptor under -fwide-types
+                fid = "C13-explicit-tag-unsigned-member"
+            else:
+                return None
+            if fid not in ids:
+                ids.append(fid)
+        return ids or None
     for vs, ms in ((variants, mods), (wvariants, wmods), (fvariants, fmods)):
         tabs = descriptor_tie(run, vs, [m["name"] for m in ms if m.get("exe")], {m["name"]: m["text"] for m in ms}, dclassify, skel_inc, lib, model)
         if vs is fvariants:
